@@ -225,7 +225,7 @@ def clause_data(pd, cd, opd, ocd, pi, sigma, tol):
     msgs = []
     for what, given, back, perm in (("point_data", pd, opd, pi), ("cell_data", cd, ocd, sigma)):
         for k, a in given.items():
-            if k not in back:
+            if not isinstance(back, dict) or k not in back:
                 msgs.append("DATA: %s '%s' is not returned" % (what, k))
                 continue
             got = back[k]
@@ -312,6 +312,7 @@ def _run(payload):
              "facets, random interior facets, random mixed unsorted, empty); oriented: plain + 4 oriented interfaces (random facets with arbitrary admissible flags "
              "incl. both values, facets_around, facets_around(flip=True), facets_satisfying(normal=+-e_x))} with %d random draw(s) x variants [%s] "
              "(json/dict on first-order meshes only) + random float point_data (scalar, 3-vector) and cell_data (2 scalars) through Mesh.save/load(out=...); "
+             "floats compared exactly except vtk-ascii (1e-15 relative) and vtu-ascii (1e-11: meshio writes 12 significant digits); "
              "variants not writable/readable by meshio alone in this environment and therefore skipped: [%s]; seed %d"
              % (Z.describe(tier), ndraws, ", ".join(v[0] for v in variants), ", ".join(skipped) or "none", seed))
     return dict(cases=cases, failures=failures[:20], samples=samples, bound=bound, failed_cases=nfailed, failed_by_variant=per_variant)
